@@ -145,6 +145,9 @@ def gen_module(rng, kind, slot, q, ratio, force_sides=None):
             ivs = [(lo + unit * cuts[2 * c], lo + unit * cuts[2 * c + 1]) for c in range(k)]
             if rng.random() < 0.25 and k == 1:
                 ivs = [(lo, hi)]                      # flush with both corners
+            elif rng.random() < 0.3 and k == 1 and n_units >= 3:
+                u = rng.randrange(1, (n_units - 1) // 2 + 1)
+                ivs = [(lo + unit * u, hi - unit * u)]   # centred on the trunk side, not flush: offset 0 along the side
             rng.shuffle(ivs)                          # netlist order != spatial order
             for (a, b) in ivs:
                 wd = b - a
